@@ -20,6 +20,18 @@ type c06Link struct {
 
 type c06Graph struct {
 	Types map[string][]c06Link `json:"types"` // type name -> properties; "@main" is the root
+	// NullRoot: types whose root object carries {nullable: true}: null is an instance,
+	// so nothing inside them is mandatory for whoever refers to them.
+	NullRoot []string `json:"nullRoot,omitempty"`
+}
+
+func (g *c06Graph) nullRoot(n string) bool {
+	for _, x := range g.NullRoot {
+		if x == n {
+			return true
+		}
+	}
+	return false
 }
 
 func (l c06Link) text(key string, comma string) string {
@@ -38,8 +50,19 @@ func (l c06Link) text(key string, comma string) string {
 		return fmt.Sprintf("\t%q: [\n\t\t%s\n\t]%s", key, t, comma)
 	case "choice":
 		return fmt.Sprintf("\t%q: %s | %s%s", key, l.Targets[0], l.Targets[1], comma)
+	case "wrapped": // the reference sits in a mandatory inline object: still a mandatory link
+		return fmt.Sprintf("\t%q: {\n\t\t\"n\": %s\n\t}%s", key, t, comma)
+	case "wrapped-optional": // the rule is written on the inline object around the reference
+		return fmt.Sprintf("\t%q: { // {optional: true}\n\t\t\"n\": %s\n\t}%s", key, t, comma)
+	case "wrapped-nullable":
+		return fmt.Sprintf("\t%q: { // {nullable: true}\n\t\t\"n\": %s\n\t}%s", key, t, comma)
 	}
 	return fmt.Sprintf("\t%q: 1%s", key, comma)
+}
+
+func c06TypeTextNull(links []c06Link) string {
+	t := c06TypeText(links)
+	return "{ // {nullable: true}" + t[1:]
 }
 
 func c06TypeText(links []c06Link) string {
@@ -58,7 +81,11 @@ func (g *c06Graph) project() *project {
 	p := &project{Root: c06TypeText(g.Types["@main"]), Types: map[string]string{}, Self: "@main"}
 	for n, l := range g.Types {
 		if n != "@main" {
-			p.Types[n] = c06TypeText(l)
+			if g.nullRoot(n) {
+				p.Types[n] = c06TypeTextNull(l)
+			} else {
+				p.Types[n] = c06TypeText(l)
+			}
 		}
 	}
 	return p
@@ -77,8 +104,11 @@ func (g *c06Graph) finite() map[string]bool {
 			}
 			ok := true
 			for _, l := range links {
+				if g.nullRoot(n) {
+					break
+				}
 				switch l.Kind {
-				case "plain":
+				case "plain", "wrapped":
 					if !fin[l.Targets[0]] {
 						ok = false
 					}
@@ -102,8 +132,11 @@ func (g *c06Graph) selfRequiring() bool {
 	seen := map[string]bool{}
 	var dfs func(n string) bool
 	dfs = func(n string) bool {
+		if g.nullRoot(n) {
+			return false
+		}
 		for _, l := range g.Types[n] {
-			if l.Kind != "plain" {
+			if l.Kind != "plain" && l.Kind != "wrapped" {
 				continue
 			}
 			t := l.Targets[0]
@@ -188,7 +221,7 @@ func (g *c06Graph) kinds() string {
 		}
 	}
 	var out []string
-	for _, k := range []string{"plain", "optional", "nullable", "array", "choice", "scalar"} {
+	for _, k := range []string{"plain", "optional", "nullable", "array", "choice", "scalar", "wrapped", "wrapped-optional", "wrapped-nullable"} {
 		if set[k] {
 			out = append(out, k)
 		}
@@ -203,8 +236,11 @@ func (g *c06Graph) cycleLen() int {
 	for len(queue) > 0 {
 		n := queue[0]
 		queue = queue[1:]
+		if g.nullRoot(n) {
+			continue
+		}
 		for _, l := range g.Types[n] {
-			if l.Kind != "plain" {
+			if l.Kind != "plain" && l.Kind != "wrapped" {
 				continue
 			}
 			t := l.Targets[0]
@@ -292,9 +328,9 @@ func c06Run(w *core.W) {
 	// F2: chains @main -> t1 -> ... -> tk -> @main with every mix of link kinds
 	maxK := 4
 	if w.Thorough() {
-		maxK = 6
+		maxK = 5
 	}
-	kinds := []string{"plain", "optional", "nullable", "array", "choice-self", "choice-finite"}
+	kinds := []string{"plain", "optional", "nullable", "array", "choice-self", "choice-finite", "wrapped", "wrapped-optional", "wrapped-nullable"}
 	var j int64
 	for k := 0; k <= maxK; k++ {
 		chain := []string{"@main"}
@@ -337,8 +373,46 @@ func c06Run(w *core.W) {
 			}
 		}
 	}
+	// F3: rules written on an inline object around the reference, and types whose root
+	// object is nullable as a whole
+	var wopts []c06Link
+	wopts = append(wopts, c06Link{Kind: "scalar"})
+	for _, k := range []string{"plain", "optional", "wrapped", "wrapped-optional", "wrapped-nullable"} {
+		for _, n := range []string{"@main", "@a"} {
+			wopts = append(wopts, c06Link{Kind: k, Targets: []string{n}})
+		}
+	}
+	for _, a := range []string{"@main", "@a"} {
+		for _, b := range []string{"@main", "@a"} {
+			wopts = append(wopts, c06Link{Kind: "choice", Targets: []string{a, b}})
+		}
+	}
+	var wforms [][]c06Link
+	for _, a := range wopts {
+		wforms = append(wforms, []c06Link{a})
+		for _, b := range wopts {
+			wforms = append(wforms, []c06Link{a, b})
+		}
+	}
+	var f3 int64
+	for _, m := range wforms {
+		for _, a := range wforms {
+			f3++
+			if !w.Mine(f3) {
+				continue
+			}
+			if f3&0xff == 0 && w.OverBudget() {
+				return
+			}
+			c06Case(w, &c06Graph{Types: map[string][]c06Link{"@main": m, "@a": a}}, "wrapped")
+			c06Case(w, &c06Graph{Types: map[string][]c06Link{"@main": m, "@a": a}, NullRoot: []string{"@a"}}, "wrapped")
+		}
+	}
 	if w.Shard == 0 {
-		w.S.States += i*int64(len(others)) + j*2
+		w.Count("wrapped.graphs", f3*2)
+	}
+	if w.Shard == 0 {
+		w.S.States += i*int64(len(others)) + j*2 + f3*2
 		w.Count("chains", j*2)
 		w.Sample((&c06Graph{Types: map[string][]c06Link{"@main": full[30], "@a": others[5], "@b": others[9]}}).project().describe())
 	}
